@@ -206,7 +206,15 @@ class AsyncClientWorld:
         kw = dict(logger=self.log, http_session=self.session, handle_sigint=False, request_timeout=5)
         kw.update(client_kwargs or {})
         _reset_client_globals()
-        self.client = engineio.AsyncClient(**kw)
+        world = self
+
+        class VAsyncClient(engineio.AsyncClient):
+            def start_background_task(self, target, *args, **kwargs):
+                if target in self.handlers.values():
+                    world.dispatch_log.append(args[0] if args else None)
+                return super().start_background_task(target, *args, **kwargs)
+        self.dispatch_log = []
+        self.client = VAsyncClient(**kw)
         self.events = []
         self.effects = {}
         self.effect_log = []
@@ -559,8 +567,12 @@ class SyncClientWorld:
         _reset_client_globals()
         s = self.sched
 
+        self.dispatch_log = []
+
         class VClient(engineio.Client):
             def start_background_task(self, target, *args, **kwargs):
+                if target in self.handlers.values():
+                    world.dispatch_log.append(args[0] if args else None)
                 th = vthreads.VThread(s, target=target, args=args, kwargs=kwargs)
                 th.start()
                 return th
